@@ -3,6 +3,9 @@
 use std::time::{Duration, Instant};
 use vlib::run::{write_evidence, write_replay, Ctx, Tier};
 
+#[global_allocator]
+static ALLOC: vlib::alloccount::Counting = vlib::alloccount::Counting;
+
 fn usage() -> ! {
     eprintln!("usage: vcheck <ID> [--tier quick|thorough] [--replay FILE]");
     std::process::exit(2)
@@ -61,14 +64,36 @@ fn main() {
     }
 
     if let Some(path) = replay {
-        let text = std::fs::read_to_string(&path).unwrap_or_else(|e| {
+        let text = String::from_utf8_lossy(&std::fs::read(&path).unwrap_or_else(|e| {
             eprintln!("cannot read replay file {path}: {e}");
             std::process::exit(2)
-        });
-        let v: serde_json::Value = serde_json::from_str(&text).unwrap_or_else(|e| {
-            eprintln!("replay file is not JSON: {e}");
-            std::process::exit(2)
-        });
+        })).to_string();
+        let v: serde_json::Value = match serde_json::from_str(&text) {
+            Ok(v) => v,
+            Err(e) => {
+                if id == "C07" {
+                    // raw libFuzzer artifact
+                    match std::panic::catch_unwind(|| vlib::props::c07::replay_raw(&path)) {
+                        Ok(Ok(())) => {
+                            println!("REPLAY-PASS property={id} replay={path}");
+                            std::process::exit(0);
+                        }
+                        Ok(Err(m)) => {
+                            println!("REPLAY-FAIL property={id}: {m}");
+                            println!("VIOLATION property={id} replay={path}");
+                            std::process::exit(1);
+                        }
+                        Err(p) => {
+                            println!("REPLAY-FAIL property={id}: PANIC {}", vlib::run::panic_msg(&p));
+                            println!("VIOLATION property={id} replay={path}");
+                            std::process::exit(1);
+                        }
+                    }
+                }
+                eprintln!("replay file is not JSON: {e}");
+                std::process::exit(2)
+            }
+        };
         let kind = v["kind"].as_str().unwrap_or("").to_string();
         let r = std::panic::catch_unwind(|| vlib::props::replay(&id, &kind, &v["case"]));
         match r {
